@@ -1073,6 +1073,7 @@ META = dict(
         "the same row (tails at tail_offset carrying the id declared by #LNOBJ); all five object families are "
         "concatenated exactly once into a table whose column names match the tuple positions; note lines have the "
         "shape '#' + 3-digit measure + channel + ':' + 2-character slots the reader slices, header lines '#KEY value'; "
-        "the writer's timing map is built from every tempo point and the slot formula has the format's shape."),
+        "the writer's timing map is built from every tempo point and the slot formula has the format's shape. Stated-belief rule "
+        "(R11): every 'encode unless already bytes' in the BMS module tests, converts and passes through one and the same value."),
     not_decided="find_lcm, the 1/192 snapping bound, base-36 text of ids beyond the shape, '.3f' tempo text, collisions in one slot (outside the domain)",
 )
